@@ -5,6 +5,8 @@ CONSTANTS
   Ranges <- AllRanges
   Rows <- RowsA
   DEV_LastTickOverwrittenByRefresh2 = FALSE
+  DEV_LateWriteKeepsLastTick = FALSE
+  LateOps = FALSE
   DEV_ShareWithoutOwnLiquidity = TRUE
 SPECIFICATION Spec
 INVARIANT Inv_C03_NonNeg
